@@ -116,7 +116,7 @@ func cmdCheck(args []string) int {
 	e.Tier = *tier
 	e.Seed = seed
 	e.Verbose = *verbose
-	e.Timeout = 30
+	e.Timeout = 45 // slowest obligation on the unchanged tree: ~15 s under load
 	if *tier == "thorough" {
 		e.Timeout = 120
 	}
@@ -219,7 +219,7 @@ func checkProperty(e *engine.Engine, verif, id, tier string, seed int, loadS flo
 			continue
 		}
 		for _, ob := range j.rep.Obligations {
-			if !strings.HasPrefix(ob.Kind, "ensures") && ob.Kind != "vacuity" {
+			if !strings.HasPrefix(ob.Kind, "ensures") && !strings.HasPrefix(ob.Kind, "invariant") && ob.Kind != "vacuity" {
 				ob.Static = true
 				ob.Status = "skipped"
 			}
